@@ -230,10 +230,10 @@ class VFn(Val):
 
 
 class VClosure(Val):
-    __slots__ = ("defn", "upvars")
+    __slots__ = ("defn", "upvars", "genv")
 
-    def __init__(self, defn, upvars):
-        self.defn, self.upvars = defn, tuple(upvars)
+    def __init__(self, defn, upvars, genv=None):
+        self.defn, self.upvars, self.genv = defn, tuple(upvars), genv
 
     def __repr__(self):
         return "closure<%s>" % self.defn
